@@ -169,6 +169,33 @@ static bool print_dependent_types(const string &lib1, const string &lib2) {
   return false;
 }
 
+/**
+ * Adds to deps the libraries that define the base classes of the indicated
+ * type.  A base class that is not itself exported (for instance an
+ * intermediate class without published members) does not end the search: the
+ * classes it derives from are base classes of the type all the same.
+ */
+static void collect_base_libraries(TypeIndex thetype, const string &library_name,
+                                   std::set<string> &deps, int depth = 0) {
+  if (depth > 100) {
+    return;
+  }
+  int num_derivations = interrogate_type_number_of_derivations(thetype);
+  for (int di = 0; di < num_derivations; ++di) {
+    TypeIndex basetype = interrogate_type_get_derivation(thetype, di);
+    if (interrogate_type_is_global(basetype)) {
+      if (interrogate_type_has_library_name(basetype)) {
+        string baselib = interrogate_type_library_name(basetype);
+        if (baselib != library_name) {
+          deps.insert(std::move(baselib));
+        }
+      }
+    } else {
+      collect_base_libraries(basetype, library_name, deps, depth + 1);
+    }
+  }
+}
+
 int write_python_table_native(std::ostream &out) {
   int count = 0;
 
@@ -201,17 +228,7 @@ int write_python_table_native(std::ostream &out) {
         std::set<string> &deps = dependencies[library_name];
 
         // Get the dependencies for this library.
-        int num_derivations = interrogate_type_number_of_derivations(thetype);
-        for (int di = 0; di < num_derivations; ++di) {
-          TypeIndex basetype = interrogate_type_get_derivation(thetype, di);
-          if (interrogate_type_is_global(basetype) &&
-              interrogate_type_has_library_name(basetype)) {
-            string baselib = interrogate_type_library_name(basetype);
-            if (baselib != library_name) {
-              deps.insert(std::move(baselib));
-            }
-          }
-        }
+        collect_base_libraries(thetype, library_name, deps);
 
         if (interrogate_type_is_typedef(thetype)) {
           TypeIndex wrapped = interrogate_type_wrapped_type(thetype);
